@@ -21,6 +21,7 @@ import (
 	"time"
 
 	"github.com/hashicorp/memberlist"
+	"github.com/vx-labs/cluster/membership"
 	"github.com/vx-labs/commitlog/stream"
 	"github.com/vx-labs/mqtt-protocol/packet"
 	"github.com/vx-labs/wasp/v4/rpc"
@@ -49,18 +50,19 @@ type World struct {
 	Clock *vpipe.Clock
 	Epoch time.Time
 
-	mu        sync.Mutex
-	Nodes     map[int]*Node
-	Conns     map[int]*Client
-	Topics    map[string][]string // client-facing topic string -> level sequence (ground truth)
-	Auth      wasp.AuthenticationHandler
-	Reverse   bool   // the gossip network delivers pending broadcasts newest first
-	Dup       bool   // at-least-once gossip: after every round of deliveries every earlier broadcast is delivered again, newest first
-	MemLog    bool   // nodes use an in-memory message log (race-detector runs)
-	Quiet     bool   // seams do not record (stress runs): only what the driver emits itself
-	AuditDown bool   // the nodes' audit sink is unreachable: every RecordEvent fails (it is a side channel and must not matter)
-	RealRPC   bool   // nodes talk to each other through the project's rpc package (TLS, interceptors) instead of a bare gRPC connection
-	Gates     *Gates // scheduler gates at the replicated-state calls (only with build tag "gates")
+	mu          sync.Mutex
+	rpcFailures int
+	Nodes       map[int]*Node
+	Conns       map[int]*Client
+	Topics      map[string][]string // client-facing topic string -> level sequence (ground truth)
+	Auth        wasp.AuthenticationHandler
+	Reverse     bool   // the gossip network delivers pending broadcasts newest first
+	Dup         bool   // at-least-once gossip: after every round of deliveries every earlier broadcast is delivered again, newest first
+	MemLog      bool   // nodes use an in-memory message log (race-detector runs)
+	Quiet       bool   // seams do not record (stress runs): only what the driver emits itself
+	AuditDown   bool   // the nodes' audit sink is unreachable: every RecordEvent fails (it is a side channel and must not matter)
+	RealRPC     bool   // nodes talk to each other through the project's rpc package (TLS, interceptors) instead of a bare gRPC connection
+	Gates       *Gates // scheduler gates at the replicated-state calls (only with build tag "gates")
 
 	cnt    map[string]int // hook counters
 	cntCh  chan struct{}
@@ -229,9 +231,19 @@ func (t netTransport) Call(id uint64, f func(*grpc.ClientConn) error) error {
 	var err error
 	switch {
 	case fail:
-		err = errors.New("injected: destination unreachable")
+		// what the production transport (the membership pool of vx-labs/cluster) answers for a peer it cannot call, in turn:
+		// the peer failed its health checks, the connection is broken
+		n.W.mu.Lock()
+		n.W.rpcFailures++
+		k := n.W.rpcFailures
+		n.W.mu.Unlock()
+		if k%2 == 1 {
+			err = membership.ErrPeerDisabled
+		} else {
+			err = errors.New("rpc error: code = Unavailable desc = injected: destination unreachable")
+		}
 	case !ok || peer.Down:
-		err = errors.New("peer is down")
+		err = membership.ErrPeerNotFound // the pool has dropped the peer
 	default:
 		err = f(peer.cc)
 	}
